@@ -594,6 +594,12 @@ func main() {
 				for k := 0; k <= maxK; k++ {
 					scs = append(scs, stopScenario(f.name, f.g, f.req, k, stop, dA))
 					nStop++
+					// the same history in switch mode (single context switches, no demotion)
+					sw := stopScenario(f.name, f.g, f.req, k, stop, 2)
+					sw.SwitchMode = true
+					sw.Name += " switch-mode"
+					sw.Family += " switch-mode"
+					scs = append(scs, sw)
 				}
 			}
 		}
